@@ -15,6 +15,8 @@
    run of real child processes (harness/rt/src/bin/c20.rs vs model/RunC20.v). *)
 From Compio.Model Require Import Base PipeSpec ProcSpec.
 From Compio.Thm Require Import ProcSpecThm.
+From Compio.Gen Require Frag.
+From Compio.Thm Require FragIoThm.
 
 (* One stream, for EVERY capacity, payload and schedule (any chunking of the
    writes and of the reads, any interleaving of producer, consumer and close
@@ -274,3 +276,14 @@ Example C20_nonvacuous_huge :
   read_returns (pipe_with_q (pipe_new 65536) [1; 2; 3]%N) (request_len true 8589934592) = 3%N.
 Proof. vm_compute. repeat split; reflexivity. Qed.
 Print Assumptions C20_nonvacuous_huge.
+
+(* ---- source tie (translated from the Rust source on every run by tools/rs2v.py
+        into gen/Frag.v; an edit of the function changes the generated definition) ---- *)
+(* the length field of the io_uring Read / Write SQEs used by the child's pipes as the
+   source has it now is the model's request_len on io_uring *)
+Theorem C20_request_len_is_source : forall n : N,
+  FileSpec.clamp_u32 n = Frag.iour_request_len n
+  /\ request_len true n = Frag.iour_request_len n
+  /\ Frag.iour_request_len_sock n = Frag.iour_request_len n.
+Proof. exact FragIoThm.request_len_tie. Qed.
+Print Assumptions C20_request_len_is_source.
